@@ -28,11 +28,26 @@ ECB = 0
 CBC = 1
 
 
+def _identical(xs, ys):
+    """literally the same items (same numbers / same solver terms); a pure
+    shortcut - equal but differently written terms take the general path"""
+    for x, y in zip(xs, ys):
+        if id(x) == id(y):
+            continue
+        ex, ey = getattr(x, "e", None), getattr(y, "e", None)
+        if ex is None and ey is None:
+            if x != y:
+                return False
+        elif ex is None or ey is None or not ex.eq(ey):
+            return False
+    return True
+
+
 class IdealCipher(object):
     def __init__(self, sx, prefix="enc"):
         self.sx = sx
         self.prefix = prefix
-        self.calls = []          # (key items, block items, out items)
+        self.calls = []          # (key + block items, out items)
 
     def block(self, key, blk):
         """E(key, blk): key 16 or 24 items, blk 8 items -> list of 8 items"""
@@ -40,19 +55,32 @@ class IdealCipher(object):
         key, blk = list(key), list(blk)
         assert len(blk) == 8 and len(key) in (16, 24)
         k = len(self.calls)
+        args = key + blk
+        for aj, oj in self.calls:
+            if len(aj) == len(args) and _identical(args, aj):
+                # literally the same arguments as an earlier call: the same
+                # result, no new unknowns.  (Call numbers still advance, so
+                # the names enc<k> do not depend on this shortcut: natively
+                # "identical" means equal values, which the constraints below
+                # already force to have equal results.)
+                self.calls.append((args, oj))
+                return list(oj)
         out = list(sx.bytes("%s%d" % (self.prefix, k), 8))
         o = sx.mkbytes(out, False)
-        a = sx.mkbytes(key + blk, False)
-        for kj, bj, oj in self.calls:
-            if len(kj) != len(key):
+        a = sx.mkbytes(args, False)
+        conds = []
+        for aj, oj in self.calls:
+            if len(aj) != len(args):
                 continue
-            same_in = sx.eq(a, sx.mkbytes(kj + bj, False))
+            same_in = sx.eq(a, sx.mkbytes(aj, False))
             same_out = sx.eq(o, sx.mkbytes(oj, False))
-            sx.assume(sx.all([sx.implies(same_in, same_out),
-                              sx.implies(same_out, same_in)]),
+            conds.append(sx.implies(same_in, same_out))
+            conds.append(sx.implies(same_out, same_in))
+        if conds:
+            sx.assume(sx.all(conds),
                       "ideal cipher: E(key, block) is a function and "
                       "collision-free over all calls of a run")
-        self.calls.append((key, blk, out))
+        self.calls.append((args, out))
         return out
 
     def encrypt(self, key, mode, iv, data):
